@@ -1,6 +1,7 @@
 package main
 
 import (
+	"time"
 	"sync"
 	"encoding/json"
 	"fmt"
@@ -20,6 +21,20 @@ type ReplayResult struct {
 	Path       string
 	Reproduced bool
 	Verdict    string
+}
+
+// The search for failing inputs is bounded per check run: the first failed obligations get the full treatment (candidate
+// models, replay on the real code, bounded witness search); once 12 obligations or 12 minutes have been spent, further
+// failed obligations are still reported, with their queries and the solver's output, but without an input search.
+var replayCount int
+var replayStart time.Time
+
+func replayBudgetLeft() bool {
+	if replayStart.IsZero() {
+		replayStart = time.Now()
+	}
+	replayCount++
+	return replayCount <= 12 && time.Since(replayStart) < 12*time.Minute
 }
 
 // replayObligation writes /verif/replays/<prop>/<obligation>/replay.json for a failed obligation and, where the
@@ -45,7 +60,7 @@ func replayObligation(vd, prop string, s *OblSummary, secs int) ReplayResult {
 			qf := filepath.Join(dir, fmt.Sprintf("query_%d.smt2", i))
 			os.WriteFile(qf, []byte(s.ctx.queryText(o, false)), 0o644)
 			q["query_file"] = qf
-			if s.ctx.Fn != nil && !res.Reproduced {
+			if s.ctx.Fn != nil && !res.Reproduced && replayBudgetLeft() {
 				r := tryReplay(s.ctx, o, dir, i, secs)
 				q["replay"] = r
 				if rep, _ := r["reproduced"].(bool); rep {
